@@ -48,7 +48,7 @@ class MergeModel(object):
         if self.f_init is None or self.f_iter is None:
             raise Inconclusive('_Merger.__init__/__iter__ vanished')
         self._sides()
-        self.interp = Interp(repo, Policy(inline=no_inline_algebra, max_depth=depth))
+        self.interp = Interp(repo, Policy(inline=no_inline_algebra, max_depth=depth, split_ifexp=True))
         self.paths = self.interp.run(self.f_iter)
         self.self_t = ('P', self.f_iter.params()[0][0])
         self.sides = Sides(self.proto, [(('A', self.self_t, self.attr_l), 'L'), (('A', self.self_t, self.attr_r), 'R')])
@@ -162,7 +162,7 @@ class MergeModel(object):
                 v.base, v.side, v.origin = t, self.limbo[t[1]], (self.limbo[t[1]], self.proto.index_of_kind('KWO'))
                 v.kind = 'KWO'
                 return v
-        if k == 'M' and t[2] == 'pop' and t[1] in self.limbo:
+        if k == 'M' and t[2] in ('pop', 'get') and t[1] in self.limbo:
             v.base, v.side, v.origin = t, self.limbo[t[1]], (self.limbo[t[1]], self.proto.index_of_kind('KWO'))
             v.kind = 'KWO'
             return v
@@ -241,6 +241,12 @@ class MergeModel(object):
     def canon_lit(self, atom, pol, cur):
         """cur: dict side -> current element term. returns (name, pol) or None"""
         k = atom[0]
+        if k in ('truthy', 'isnone') and atom[1][0] == 'M' and atom[1][2] == 'get' and len(atom[1][3]) == 1 and not atom[1][4]:
+            # `D.get(name)` tested for presence: buckets hold Parameter objects (never None, always truthy), so
+            # `D.get(n) is not None` / `if D.get(n)` is the membership test `n in D`
+            r = self.canon_lit(('in', atom[1][3][0], atom[1][1]), pol if k == 'truthy' else not pol, cur)
+            if r is not None:
+                return r
         if k == 'truthy':
             t = atom[1]
             for s, el in cur.items():
